@@ -36,8 +36,7 @@ CLAIMS = {
           ' Also: resolver purity - the resolver reads only the registry and its arguments and stores nothing (a cache makes the answer history-dependent).'
           " Also: the handler tables of different namespaces are distinct objects; the legacy one-argument disconnect retry arm (functions and namespace classes) is exactly: TypeError and event == 'disconnect' -> one re-invocation without the last argument, result returned."
           " Also: names that coincide with the catch-all key ('*' as event or namespace name) only reach the catch-all targets, with the name prepended (F14, fixed).",
-  'note': TRUST + "Assumes event/namespace names differ from the literal "
-          "'*' and registered handlers are truthy. A resolver rewritten "
+  'note': TRUST + "Assumes registered handlers are truthy. A resolver rewritten "
           'into a form outside the evaluator (lookup loop, helper in '
           'another module) yields ANALYSIS-ERROR, not a verdict.',
   'technique': 'static analysis: finite-domain decision table by symbolic '
